@@ -165,6 +165,15 @@ func (x *Exec) oblige(st *State, kind, name, label string, goal *Term, pos token
 		p := x.pkg.Fset.Position(pos)
 		o.Pos = fmt.Sprintf("%s:%d", shortFile(p.Filename), p.Line)
 	}
+	if x.coarse {
+		// coarse units track a few ghost facts through mostly abstracted code:
+		// their machine-level safety conditions are not claimed
+		switch kind {
+		case "ovf", "nil", "idx", "slice", "div", "shift", "makelen", "alloc", "panic":
+			x.assumes["coarse unit "+x.unit.Short+": run-time safety conditions (bounds, nil, overflow) are assumed, not proved"] = true
+			return o
+		}
+	}
 	x.obligs = append(x.obligs, o)
 	return o
 }
